@@ -140,6 +140,17 @@ const (
 	LENTMP = OpCode(TempFlag | LEN) // LEN pushes the length of src0
 )
 
+// RangeError is the panic value of EncodeSrc when an address, offset or count
+// does not fit in an instruction operand. The compiler entry points recover it
+// and report it as a compile error.
+type RangeError struct {
+	Addr int
+}
+
+func (e RangeError) Error() string {
+	return fmt.Sprintf("Compile error: program too large, operand %d does not fit in an instruction", e.Addr)
+}
+
 // New creates a new instruction.
 func New(op OpCode) Type {
 	op &= (1 << ((OpcodeHi - OpcodeLo) + 1)) - 1
@@ -154,8 +165,9 @@ func New(op OpCode) Type {
 // srcAddr specifies the source address, or immediate value for instruction
 // encoded integers.
 func EncodeSrc(srcsel int, src uint64, srcAddr int) Type {
-	if srcAddr <= -(1<<SrcChanWidth) || srcAddr >= (1<<SrcChanWidth) {
-		panic("srcAddr out of range")
+	// the operand field is a SrcChanWidth bit two's complement number
+	if srcAddr < -(1<<(SrcChanWidth-1)) || srcAddr >= (1<<(SrcChanWidth-1)) {
+		panic(RangeError{Addr: srcAddr})
 	}
 	addr := uint64(srcAddr)
 	switch srcsel {
